@@ -1,4 +1,5 @@
 """pysym public API used by the sidecar contracts."""
+import os
 import ast, sys, time
 import z3
 from .values import *
@@ -64,6 +65,10 @@ def verify(modname, qual, make_args, post, ex=None, node=None, ordinal=None, set
         return Verdict(UNDECIDED, f'{type(e).__name__} in postcondition: {e}', time.time() - t0)
     v = Verdict(PROVED, f'{len(outs)} path(s), {ex.n_queries} solver queries', time.time() - t0, paths=len(outs))
     v.returns = sum(1 for o in outs if o.kind == 'return')          # reachability cover: how many explored paths reach a return
+    if v.returns == 0 and os.environ.get('VERIF_AUDIT_VACUITY'):
+        # maintainer audit: verdicts in which no explored path returns (legitimate for "raises X on every path" contracts, vacuous otherwise)
+        with open(os.environ['VERIF_AUDIT_VACUITY'], 'a') as fh:
+            fh.write(f'{modname}:{qual or getattr(node, "name", "?")} paths={len(outs)} raises={sorted({getattr(o.value, "__name__", str(o.value)) for o in outs})}\n')
     return v
 
 
